@@ -5,6 +5,7 @@ import spec
 from spec import hex_of, bits_of, val_of
 
 OBLIGATION_MODULES = ["PyModeS.Properties.C01"]
+TIE_MODULES = ['PyModeS.Tie.Crc', 'PyModeS.Tie.C01Gen']
 MAIN_THEOREM = "PyModeS.C01.crc_eq_remainder / parity_closure / burst_detected / weight_le5_detected"
 RULE = ("all 1-bit and 2-bit frames (every byte/bit alignment, both lengths), random frames x encode on/off x hex case, "
         "crc_legacy sample; valid frames corrupted by every burst offset x fills and random weight<=5 patterns; "
